@@ -233,6 +233,66 @@ def gen_sp_cases(rng, n, sizes, big=()):
     return cases
 
 
+def enum_small_cases():
+    """ALL neighbour-list graphs with (N,K) in {(2,1),(2,2),(3,1)} and ALL weightings of their edges from {0,1,2}
+    (weights of non-edges are 1), landmarks = all vertices in decreasing order"""
+    import itertools
+    out = []
+    for N, K in ((2, 1), (2, 2), (3, 1)):
+        for flat in itertools.product(range(N), repeat=N * K):
+            nbrs = [list(flat[u * K:(u + 1) * K]) for u in range(N)]
+            edges = sorted({(u, v) for u in range(N) for v in nbrs[u]})
+            for ws in itertools.product((0, 1, 2), repeat=len(edges)):
+                w = [[1] * N for _ in range(N)]
+                for (u, v), x in zip(edges, ws):
+                    w[u][v] = x
+                out.append({"kind": "sp", "gen": "exhaustive", "N": N, "nbrs": nbrs, "w": w, "scale": 0,
+                            "lm": list(range(N - 1, -1, -1))})
+    return out
+
+
+def evaluate_big(ctx, exes, cases, stats):
+    """N > 128: the extracted Bellman-Ford is O(N^4 K); the observed matrices are compared with the extracted Dijkstra
+    models (priority queue with first-min pick, concrete Fibonacci heap), which dijkstra_pq_correct and
+    dijkstra_fib_concrete_correct prove equal to the specification, and two sampled rows go through check_row."""
+    if not cases:
+        return 0
+    n_eval = 0
+    obs = observe_sp(ctx, exes, cases, trace=False)
+    blocks = run_model(ctx, exes.model, ["D " + " ".join(graph_tokens(c, True)) for c in cases], timeout=3000)
+    for c, o, blk in zip(cases, obs, blocks):
+        model = parse_block(blk)
+        N, nl = c["N"], len(c["lm"])
+        ref, lref = model.get("full pq0"), model.get("land pq0", [])
+        if model.get("full fibc") != ref or (nl and model.get("land fibc") != lref):
+            ctx.mismatch(strip(c), "the two extracted Dijkstra models disagree on a big graph")
+        klines = []
+        for key, r in o.items():
+            if r.get("skipped"):
+                continue
+            if r["crash"] or r["x"]:
+                ctx.violation(strip(c), "the real routine aborts / hangs / throws (build %s, threads %s): %s" % (
+                    key[0], key[1], str(r["crash"] or r["x"])[:400]))
+                continue
+            full, p1 = parse_obs(r["tags"].get("full"), c.get("scale", 0), N, N)
+            land, p2 = (parse_obs(r["tags"].get("land"), c.get("scale", 0), nl, N) if nl else ([], None))
+            n_eval += 1 + (1 if nl else 0)
+            if full is None or land is None or p1 or p2 or full != ref or (nl and land != lref):
+                detail = p1 or p2 or (first_diff(full, ref) if full != ref else "landmark matrix: " + first_diff(land, lref))
+                ctx.violation(strip(c), "compute_shortest_distances_matrix (build %s, threads %s) is not the shortest-path "
+                                        "matrix on a %d-vertex graph: %s" % (key[0], key[1], N, detail))
+                continue
+            if key[1] == 1 and N <= 256:
+                for src in (0, N // 2):
+                    klines.append("K " + " ".join(graph_tokens(c, True)) + " S %d " % src
+                                  + " ".join(obs_tokens([full[src]])))
+        for blk2 in (run_model(ctx, exes.model, klines, timeout=3000) if klines else []):
+            stats["big_rows_checked"] += 1
+            if "row ok" not in blk2:
+                ctx.violation(strip(c), "a row of the %d-vertex matrix fails the extracted Bellman-Ford check_row" % N)
+    return n_eval
+
+
 def boundary_sp_cases():
     """fixed small cases aimed at the case splits of the proofs"""
     out = []
@@ -302,13 +362,15 @@ def obs_tokens(mat):
 
 
 # ----------------------------------------------------------------------------------------------- running
-def run_harness(ctx, exe, lines, timeout=900):
+def run_harness(ctx, exe, lines, timeout=None, max_restarts=3):
     """one case per line; returns for each line {"tags": {tag: (r, c, [tokens])}, "x": str|None,
-    "crash": str|None}; a process death is attributed to the case announced last and the rest is re-run"""
+    "crash": str|None, "skipped": bool}; a process death / hang is attributed to the case announced last and the
+    rest is re-run (at most max_restarts times; what is left after that is marked skipped, not judged)"""
+    if timeout is None:
+        timeout = 90 if ctx.quick else 900
     results = [None] * len(lines)
-    start, guard = 0, 0
-    while start < len(lines) and guard < 40:
-        guard += 1
+    start, restarts = 0, 0
+    while start < len(lines):
         r = ctx.run(exe, "\n".join(lines[start:]) + "\n", timeout=timeout,
                     env={"OMP_WAIT_POLICY": "passive", "OMP_DYNAMIC": "false"})
         cur = None
@@ -319,7 +381,7 @@ def run_harness(ctx, exe, lines, timeout=900):
                 except ValueError:
                     continue
                 if 0 <= cur < len(lines):
-                    results[cur] = {"tags": {}, "x": None, "crash": None, "ended": False}
+                    results[cur] = {"tags": {}, "x": None, "crash": None, "ended": False, "skipped": False}
                 else:
                     cur = None
             elif cur is None:
@@ -339,17 +401,23 @@ def run_harness(ctx, exe, lines, timeout=900):
             break
         if cur is None:
             cur = start
-            results[cur] = {"tags": {}, "x": None, "crash": None, "ended": False}
+            results[cur] = {"tags": {}, "x": None, "crash": None, "ended": False, "skipped": False}
         if results[cur]["ended"] and cur + 1 < len(lines):
             # died between cases: blame the next one
             cur += 1
-            results[cur] = {"tags": {}, "x": None, "crash": None, "ended": False}
-        results[cur]["crash"] = ("timeout (hang)" if r.timed_out else
+            results[cur] = {"tags": {}, "x": None, "crash": None, "ended": False, "skipped": False}
+        results[cur]["crash"] = ("timeout after %d s (hang)" % timeout if r.timed_out else
                                  (r.sanitizer or r.err[-600:] or "exit code %d" % r.rc))
         start = cur + 1
+        restarts += 1
+        if restarts > max_restarts:
+            break
     for i, x in enumerate(results):
         if x is None:
-            results[i] = {"tags": {}, "x": None, "crash": "no output for this case", "ended": False}
+            results[i] = {"tags": {}, "x": None, "crash": None, "ended": False,
+                          "skipped": True}
+        elif not x["ended"] and not x["crash"]:
+            x["crash"] = "output of this case is incomplete"
     return results
 
 
@@ -463,7 +531,7 @@ class Exes:
         self.sp, self.iso, self.model = sp, iso, model
 
 
-def observe_sp(ctx, exes, cases, trace=True, only=None):
+def observe_sp(ctx, exes, cases, trace=True, only=None, timeout=None):
     """runs every case in both builds x THREADS (+ one traced single-thread run).  Returns per case
     {(build, threads): result dict}"""
     per_case = [dict() for _ in cases]
@@ -484,7 +552,7 @@ def observe_sp(ctx, exes, cases, trace=True, only=None):
         if lines:
             jobs.append((b, lines, keys))
     with ThreadPoolExecutor(max_workers=2) as pool:
-        outs = list(pool.map(lambda j: run_harness(ctx, exes.sp[j[0]], j[1]), jobs))
+        outs = list(pool.map(lambda j: run_harness(ctx, exes.sp[j[0]], j[1], timeout=timeout), jobs))
     for (b, lines, keys), res in zip(jobs, outs):
         for (ci, key), r in zip(keys, res):
             per_case[ci][key] = r
@@ -498,9 +566,15 @@ def evaluate_sp(ctx, exes, cases, stats, shrink=True):
         return 0
     obs = observe_sp(ctx, exes, cases)
     mlines = ["M " + " ".join(graph_tokens(c, False)) for c in cases]
-    slines = ["M " + " ".join(graph_tokens(c, True)) for c in cases]
     mblocks = run_model(ctx, exes.model, mlines)
-    sblocks = run_model(ctx, exes.model, slines)
+    # the specification speaks about the graph the routine reads (rows cut to n_neighbors): a second model run
+    # is needed only where rows are longer than row 0
+    ragged = [i for i, c in enumerate(cases) if c.get("ragged")]
+    sblocks = list(mblocks)
+    if ragged:
+        for i, blk in zip(ragged, run_model(ctx, exes.model,
+                                            ["M " + " ".join(graph_tokens(cases[i], True)) for i in ragged])):
+            sblocks[i] = blk
     # distinct observed matrices per case -> spec decision procedure
     clines, cidx = [], []
     parsed = []
@@ -510,6 +584,9 @@ def evaluate_sp(ctx, exes, cases, stats, shrink=True):
         seen = {}
         entry = {"configs": {}, "problems": []}
         for key, r in obs[ci].items():
+            if r.get("skipped"):
+                stats["skipped_runs"] += 1
+                continue
             if r["crash"] or r["x"]:
                 entry["problems"].append((key, "crash" if r["crash"] else "exception",
                                           r["crash"] or r["x"]))
@@ -565,7 +642,8 @@ def evaluate_sp(ctx, exes, cases, stats, shrink=True):
                    "garbage": "unusable output (build %s, threads %s): %s"}[kind] % (key[0], key[1], str(text)[:500])
             cc = c
             if shrink and len(ctx._violations) < 2:
-                cc = shrink_sp(ctx, exes, c, lambda x: sp_fails(ctx, exes, x, crash_only=True, only=[key]))
+                cc = shrink_sp(ctx, exes, c, lambda x: sp_fails(ctx, exes, x, crash_only=True, only=[key]),
+                               budget=15 if "timeout" in str(text) else 60)
             ctx.violation(strip(cc), why)
         for sig, key in entry["distinct"].items():
             full, land, prob = entry["configs"][key]
@@ -597,7 +675,7 @@ def evaluate_sp(ctx, exes, cases, stats, shrink=True):
         # build: tie-free graphs only (there the order is forced and both builds must agree with the model).
         for b in BUILDS:
             r = obs[ci].get((b, "trace"))
-            if not r or r["crash"]:
+            if not r or r["crash"] or r.get("skipped"):
                 continue
             for tag, mtag in (("trace", "trace fibc"), ("ltrace", "ltrace fibc")):
                 if tag not in r["tags"] or not isinstance(model.get(mtag), list):
@@ -629,10 +707,12 @@ def strip(case):
 def sp_fails(ctx, exes, case, crash_only=False, only=None):
     """does the implementation still fail the extracted spec on this (shrunk) case?  `only` restricts the
     configurations (build, threads) that are run"""
-    obs = observe_sp(ctx, exes, [case], trace=False, only=only)[0]
+    obs = observe_sp(ctx, exes, [case], trace=False, only=only, timeout=20)[0]
     N, nl, s = case["N"], len(case["lm"]), case.get("scale", 0)
     mats = []
     for key, r in obs.items():
+        if r.get("skipped"):
+            continue
         if r["crash"] or r["x"]:
             return True
         full, p1 = parse_obs(r["tags"].get("full"), s, N, N)
@@ -641,7 +721,7 @@ def sp_fails(ctx, exes, case, crash_only=False, only=None):
             return not crash_only
         if [full, land] not in mats:
             mats.append([full, land])
-    if crash_only:
+    if crash_only or not mats:
         return False
     if len(mats) > 1:
         return True
@@ -711,11 +791,11 @@ def shrink_sp(ctx, exes, case, fails, budget=60):
 
 
 # ----------------------------------------------------------------------------------------------- Isomap stage
-def gen_iso_cases(rng, n_exact, n_tol, n_liso):
+def gen_iso_cases(rng, n_exact, n_tol, n_liso, big=False):
     cases = []
     for i in range(n_exact + n_tol):
         exact = i < n_exact
-        N = rng.choice([8, 16, 16, 32] if exact else [6, 7, 11, 13, 20, 27])
+        N = rng.choice(([8, 16, 16, 32, 32, 64] if big else [8, 16, 16, 32]) if exact else [6, 7, 11, 13, 20, 27])
         dim = rng.choice([1, 2, 2, 3])
         pts = gen_points(rng, N, dim, rng.choice([6, 12, 40]), clusters=rng.random() < 0.25)
         T = [[l1(p, q) for q in pts] for p in pts]
@@ -785,6 +865,9 @@ def evaluate_iso(ctx, exes, cases, stats):
         for c, r in zip(sub, res):
             tag = "%s/%s/%s" % (c["meth"], c["nm"], b_run)
             stats["iso"][tag] = stats["iso"].get(tag, 0) + 1
+            if r.get("skipped"):
+                stats["skipped_runs"] += 1
+                continue
             if r["crash"]:
                 ctx.violation(strip(c), "Isomap embed() aborts / hangs (%s build): %s" % (b_run, str(r["crash"])[:500]))
                 continue
@@ -941,6 +1024,13 @@ def check_embedding(ctx, info, r, stats):
 
 
 # ----------------------------------------------------------------------------------------------- main
+def new_stats():
+    return {"model_rows": 0, "traces": 0, "trace_agree": 0, "trace_disagree": 0, "trace_calls": 0,
+            "skipped_runs": 0, "big_rows_checked": 0, "old_f4_model_differs": 0, "iso": {}, "iso_exceptions": 0,
+            "iso_disconnected": 0, "B_exact": 0, "B_tolerance": 0, "emb_checked": 0, "emb_degenerate": 0,
+            "emb_oracle_bad": 0, "emb_worst_rel": 0.0}
+
+
 def build_all(ctx, with_iso_fib=True):
     """four C++ builds + extraction, concurrently (the ISO translation units dominate: ~80 s each)"""
     jobs = {
@@ -971,7 +1061,7 @@ def case_hash(c):
 def nontrivial(c):
     """N >= 4, at least one edge, and some vertex has an out-neighbour whose own neighbours lead further
     (so some geodesic needs two edges or more)"""
-    if c["kind"] != "sp":
+    if c.get("kind", "sp") != "sp":
         return c["N"] >= 6
     N = c["N"]
     if N < 4 or not c["nbrs"] or not c["nbrs"][0]:
@@ -1002,9 +1092,7 @@ def run(ctx):
     t_build = time.time() - t0
     exes = Exes({b: bins[("sp", b)] for b in BUILDS}, {b: bins[("iso", b)] for b in BUILDS if ("iso", b) in bins},
                 mexe)
-    stats = {"model_rows": 0, "traces": 0, "trace_agree": 0, "trace_disagree": 0, "trace_calls": 0, "old_f4_model_differs": 0, "iso": {}, "iso_exceptions": 0,
-             "iso_disconnected": 0, "B_exact": 0, "B_tolerance": 0, "emb_checked": 0, "emb_degenerate": 0,
-             "emb_oracle_bad": 0, "emb_worst_rel": 0.0}
+    stats = new_stats()
     hist = {}
     cases = []
     for name, c in ctx.corpus():
@@ -1014,23 +1102,38 @@ def run(ctx):
         cases.append(c)
     cases += boundary_sp_cases()
     sizes = [1, 2, 3, 3, 4, 4, 5, 5, 6, 6, 7, 8, 8, 10, 12, 16, 16, 24, 32]
+    big_cases = []
     if quick:
         cases += gen_sp_cases(rng, 260, sizes, big=(48, 64))
         iso_cases = gen_iso_cases(rng, 24, 8, 16)
     else:
-        cases += gen_sp_cases(rng, 2500, sizes + [40, 48, 64], big=(64, 96, 128, 128))
-        iso_cases = gen_iso_cases(rng, 200, 60, 120)
+        cases += gen_sp_cases(rng, 2500, sizes + [40, 48, 64], big=(64, 96, 128))
+        cases += enum_small_cases()
+        iso_cases = gen_iso_cases(rng, 200, 60, 120, big=True)
+        for N in (200, 256, 400):
+            big_cases.append(add_landmarks(rng, gen_knn(rng, N, rng.choice([6, 8, 10]), 2, 128,
+                                                        clusters=rng.random() < 0.5)))
     sp_cases = [c for c in cases if c.get("kind", "sp") == "sp"]
     iso_cases = [c for c in cases if c.get("kind") == "iso"] + iso_cases
     n = 0
     for i in range(0, len(sp_cases), 400):
         n += evaluate_sp(ctx, exes, sp_cases[i:i + 400], stats)
     n += evaluate_iso(ctx, exes, iso_cases, stats)
+    n += evaluate_big(ctx, exes, big_cases, stats)
     # search phase (CONVENTIONS 3.2): something is no longer shown and no failing input yet
     searched = 0
     if ctx.is_unshown() or (stats["trace_disagree"] and not ctx.has_violation()):
         small = [2, 3, 3, 4, 4, 5, 6, 8]
+        if quick:
+            # model-guided small exhaustive enumeration (the thorough tier has it in its regular plan)
+            extra = enum_small_cases()
+            searched += len(extra)
+            for i in range(0, len(extra), 700):
+                if not ctx.has_violation():
+                    n += evaluate_sp(ctx, exes, extra[i:i + 700], stats)
         for rnd in range(5):
+            if ctx.has_violation():
+                break
             extra = gen_sp_cases(rng, 260 if quick else 1000, small if rnd < 2 else sizes)
             searched += len(extra)
             n += evaluate_sp(ctx, exes, extra, stats)
@@ -1040,7 +1143,7 @@ def run(ctx):
             n += evaluate_iso(ctx, exes, gen_iso_cases(rng, 60, 20, 40), stats)
     ctx.note("wall clock: coq %.0f s, extraction %.0f s, all builds done after %.0f s, evaluation %.0f s" % (
         t_coq, t_extract, t_build, time.time() - t0 - t_build))
-    allc = sp_cases + iso_cases
+    allc = sp_cases + iso_cases + big_cases
     for c in allc:
         g = c.get("gen", c["kind"] + ":" + c.get("meth", ""))
         hist[g] = hist.get(g, 0) + 1
@@ -1074,9 +1177,7 @@ def replay(ctx, case):
     mexe = ctx.extract()
     exes = Exes({b: bins[("sp", b)] for b in BUILDS}, {b: bins[("iso", b)] for b in BUILDS if ("iso", b) in bins},
                 mexe)
-    stats = {"model_rows": 0, "traces": 0, "trace_agree": 0, "trace_disagree": 0, "trace_calls": 0, "old_f4_model_differs": 0, "iso": {}, "iso_exceptions": 0,
-             "iso_disconnected": 0, "B_exact": 0, "B_tolerance": 0, "emb_checked": 0, "emb_degenerate": 0,
-             "emb_oracle_bad": 0, "emb_worst_rel": 0.0}
+    stats = new_stats()
     c = dict(case)
     c.pop("captured_neighbors", None)
     c.pop("captured_landmarks", None)
